@@ -20,6 +20,8 @@ pub const SEMANTIC_DECISIONS: &[&str] = &[
     "anti_join/difference with 'static pos: all positives of the lifetime are replayed every tick and filtered by the current negative set (pinned by surface_difference.rs::test_diff_multiset_static)",
     "fold/lattice_fold emit exactly one value in every tick, also on ticks without input and for 'static (pinned by surface_handoff.rs::test_singleton_multi_tick_consumed, surface_fold.rs::test_fold_static_join); reduce/lattice_reduce emit nothing while their state is empty and re-emit the 'static accumulator on ticks without input (Appendix A); the *_no_replay variants emit only on ticks with new input (doc)",
     "fold_keyed/reduce_keyed emit one pair per key present in the state every tick ('static: all keys ever seen)",
+    "fold_no_replay/reduce_no_replay: 'does not replay the accumulated value on ticks where there is no new input' is read as: no *re*-emission; the (initial) accumulator is still emitted once in tick 0 even without input, as the implementation deliberately special-cases tick 0 (the doc sentence is silent about the first emission; no repository test pins it)",
+    "join_fused_rhs::<'a,'b>: 'a applies to the fused right-hand side (port 1) and 'b to the streaming left-hand side (port 0), i.e. mirrored w.r.t. the ports (docs only say 'see join_fused_lhs'; pinned by surface_join_fused.rs::static_tick_lhs_streaming_rhs_blocking)",
     "scan: a `None` stops the output for the rest of the tick and later items of that tick are not folded (doc: 'terminate the stream'; pinned by surface_scan.rs::test_scan_early_termination); whether a 'static scan resumes on the next tick is not documented, so 'static scans only use closures that are monotone (once None, always None)",
     "sort_by_key uses an unstable sort on a field reference: outputs of non-injective keys are projected to the key by the harness before comparison",
     "zip: pairs by position over what each side holds in its lifetime; a 'tick side drops its excess at tick end, a 'static side keeps it (doc); zip_longest only accepts 'tick",
@@ -215,7 +217,8 @@ impl<'a> Machine<'a> {
                     for x in &v {
                         fns::foldf(*f, acc, *x);
                     }
-                    vec![if v.is_empty() { vec![] } else { vec![*acc] }]
+                    // first emission in tick 0 (not a *re*play), afterwards only with new input
+                    vec![if v.is_empty() && t != 0 { vec![] } else { vec![*acc] }]
                 }
                 Op::Reduce(_, f) | Op::ReduceNoReplay(_, f) => {
                     let v = inp(0);
@@ -227,7 +230,7 @@ impl<'a> Machine<'a> {
                     }
                     let replay = matches!(nd.op, Op::Reduce(..));
                     vec![match s.acc {
-                        Some(acc) if replay || !v.is_empty() => vec![acc],
+                        Some(acc) if replay || !v.is_empty() || t == 0 => vec![acc],
                         _ => vec![],
                     }]
                 }
@@ -517,7 +520,11 @@ impl<'a> Machine<'a> {
                 s.prev = std::mem::take(&mut s.b);
                 continue;
             }
-            let ps = nd.op.persistence();
+            let mut ps = nd.op.persistence();
+            if let Op::JoinFusedRhs(..) = nd.op {
+                // first argument = fused (right) side, second = streaming (left) side
+                ps.swap(0, 1);
+            }
             match ps.len() {
                 1 if ps[0] == P::Tick => *s = NS::default(),
                 2 => {
